@@ -96,6 +96,15 @@ def bounds_spec(n, sizes, kind, table):
         rng[0] *= 1e4
         hi_v = lo_v + rng
         return lo_v.copy(), hi_v.copy(), lo_v.copy(), hi_v.copy()
+    if kind == 'small':
+        # a uniformly small physical scale (thicknesses in metres): the box is about 1e-3 wide for every variable
+        lo_v = 1e-3 * (0.1 + 0.3 * gen(table, 3, n))
+        hi_v = lo_v + 1e-3 * (0.5 + 1.5 * gen(table, 4, n))
+        return lo_v.copy(), hi_v.copy(), lo_v.copy(), hi_v.copy()
+    if kind == 'zero':
+        # every lower bound is exactly 0 (densities with xmin = 0): a start at the lower bound is a start at 0.0
+        hi_v = 0.5 + 1.5 * gen(table, 4, n)
+        return 0.0, hi_v.copy(), np.zeros(n), hi_v.copy()
     raise KeyError(kind)
 
 
@@ -123,6 +132,10 @@ def start_point(n, lo, hi, start, table):
         return 0.5 * (lo + hi)
     if start == 'mixed':
         return lo + gen(table, 7, n) * (hi - lo)
+    if start == 'partzero':   # every second variable exactly on its lower bound, the others inside
+        x = lo + gen(table, 7, n) * (hi - lo)
+        x[::2] = lo[::2]
+        return x
     if start == 'int':      # integer-valued start (the harness hands it over as integer-typed states)
         return np.ones(n)
     raise KeyError(start)
@@ -137,7 +150,7 @@ class Problem:
         self.n, self.obj, self.cons, self.table = n, obj, cons, table
         self.lo, self.hi = np.asarray(lo, float).copy(), np.asarray(hi, float).copy()
         self.w = self.hi - self.lo
-        assert np.all(self.lo > 0) and np.all(self.w > 0)
+        assert np.all(self.lo >= 0) and np.all(self.w > 0)      # (lo = 0: only for members without 1/x terms)
         g = lambda salt: gen(table, salt, n)
         self.h = 1.0 + 2.0 * g(8)
         self.t = -0.2 + 1.4 * g(9)
